@@ -320,7 +320,7 @@ func (r *run) position(t *model.TypeRef, fields []*nast.Field, path string, kind
 			return done(nil, false)
 		}
 		return nil, true
-	case values.WrongKind, values.OutOfRange, values.UnknownEnum, values.BadRuntimeType, values.NilRuntimeType, values.IsTypeOfFalse, values.ThunkThunk:
+	case values.WrongKind, values.OutOfRange, values.UnknownEnum, values.BadRuntimeType, values.NilRuntimeType, values.IsTypeOfFalse, values.ThunkThunk, values.Inf, values.NumericString, values.SerializeToNil:
 		// adversarial value: what exactly happens is edition-specific
 		// (lenient coercions); the position is "wild": any legal value, or a failure.
 		r.e.Wild = append(r.e.Wild, path)
